@@ -131,6 +131,19 @@ def overlaps_mesh(g, tri):
 
 # ----------------------------------------------------------------------------- recipes
 
+def roundtrip_safe(g):
+    """the geometry file keeps two decimals: a round trip is only a fair edit while no column side is shorter than
+    0.25 (otherwise rounding the node positions can flatten or flip a column, which is a property of the file
+    format, not of the editing code)"""
+    for c in g.columnlist:
+        k = len(c.node)
+        for i in range(k):
+            a, b = c.node[i].pos, c.node[(i + 1) % k].pos
+            if (a[0] - b[0]) ** 2 + (a[1] - b[1]) ** 2 < 0.0625:
+                return False
+    return True
+
+
 def patch_op(g, x, y, n):
     """the operation `reduce` to a connected patch of at most n columns around the column nearest to (x, y)
     (used to cut the shipped geometries down to size; being an operation, the oracle watches it like any other)"""
